@@ -316,8 +316,8 @@ def effect_programs(rng, U):
     small = [u for u in U if not u.startswith('[') or len(u) < 40]
     a, b, c = rng.choice(small), rng.choice(small), rng.choice(small)
     op = rng.choice(['plus', 'plus', 'minus', 'multiply', 'divide'])
-    while op == 'multiply' and (big_repeat(a, b) or big_repeat(c, b) or big_repeat(a, c) or big_repeat(b, a) or big_repeat(b, c)):
-        b = rng.choice(small)
+    while op == 'multiply' and any(big_repeat(x, y) for x in (a, b, c) for y in (a, b, c)):
+        a, b, c = rng.choice(small), rng.choice(small), rng.choice(small)
     A, B, C_, D, F, P = sv('aa'), sv('bb'), sv('cc'), sv('dd'), sv('ff'), sv('pp')
     pre = progs.setup_value(a, A) + progs.setup_value(b, B) + progs.setup_value(c, C_)
     shape = rng.choice(['var', 'var', 'cell', 'cell-replaced', 'two-operands', 'unset'])
